@@ -46,6 +46,7 @@ const (
 	opSelect
 	opYield
 	opJoin
+	opSettle // enabled only when no other thread can move: "let everybody else run until they block"
 )
 
 type op struct {
@@ -144,6 +145,13 @@ func GoNamed(name string, f func()) {
 func Yield() {
 	if s := cur; s != nil {
 		s.point(&op{kind: opYield})
+	}
+}
+
+// Settle parks the caller until every other thread is blocked or finished.
+func Settle() {
+	if s := cur; s != nil {
+		s.point(&op{kind: opSettle})
 	}
 }
 
@@ -402,6 +410,15 @@ func (s *Sched) enabledMoves() []Move {
 			}
 		}
 	}
+	if len(moves) == 0 {
+		// threads waiting for the others to settle may go on now (lowest id first)
+		for _, t := range s.threads {
+			if !t.done && t.op != nil && t.op.kind == opSettle {
+				moves = append(moves, Move{t.id, 0})
+				break
+			}
+		}
+	}
 	return moves
 }
 
@@ -490,6 +507,8 @@ func opName(o *op, c int) string {
 		return "yield"
 	case opJoin:
 		return "join"
+	case opSettle:
+		return "settle"
 	case opSelect:
 		k := []string{"recv", "send", "default"}[o.cases[c].kind]
 		return fmt.Sprintf("select#%d(%s)", c, k)
